@@ -859,3 +859,12 @@ impl PacketReceiver {
         self.assembly_window.verif_max_alloc()
     }
 }
+
+#[cfg(uflow_verif)]
+impl PacketReceiver {
+    /// Bytes actually held for received packet data: reassembly buffers plus complete, undelivered packets
+    pub fn verif_held_bytes(&self) -> usize {
+        let complete: usize = self.data_entries.iter().map(|entry| entry.data.as_ref().map_or(0, |data| data.len())).sum();
+        self.assembly_window.verif_held_bytes() + complete
+    }
+}
